@@ -477,7 +477,23 @@ def script_from_text(text):
             else: s.calls.append((w[1],))
     return s
 
+def engine_counters(ctx):
+    """Status-call counters of the REAL Builder over random histories (restat pruning through phony aliases, failures, -k, pools, dyndep)"""
+    import random
+    import enginecheck as ec
+    rnd = random.Random(ctx.seed * 20 + 5)
+    hists = [ec.gen_history(rnd, 'C20_e%d' % i, rnd.randrange(2, 9), rnd.randrange(1, 5), feat=dict(restat=0.5, alias=0.8, phony=0.3, dyndep=0.15), faults=0.2) for i in range(1500 if ctx.quick() else 12000)]
+    rc, tr, err, out = ec.run_hists(hists)
+    n = 0
+    for h in hists:
+        for st, b in ec.pair(h, tr.get(h.sid, [])):
+            n += 1
+            bad = ec.oracle_counters(h, st, b)
+            if bad: ctx.violation('counters', h.text(), '%s: %s' % (h.sid, '; '.join(bad[:2])))
+    return n
+
 def run(ctx):
+    _n_engine = engine_counters(ctx)
     check_out_proofs(ctx)
     known = {k.get('id') for k in ctx.known_list if k.get('property') == 'C20'}
     accept_glue = True      # see ASSUMPTIONS: counted, classified below
